@@ -120,5 +120,8 @@ AuthStable(authp, authq, signer) ==
 \* Storage plans (C07 at whole-application level, any size up to MaxInt64): plans = set of per-plan observations
 \* [owner, neg (space used negative), fits (used <= bought), eq (used = footprint of the owner's live plan-paid files)]
 PlansSound(plans) == \A p \in plans : ~p.neg /\ p.fits /\ p.eq
+\* Split of the emission (C13), evaluated on residuals computed with big integers by the harness, so that emissions anywhere in
+\* the int64 range are covered: each recipient got exactly floor(emission * percentage / 100), the mint module kept less than 3
+SplitExact(sp) == sp.rs = 0 /\ sp.rd = 0 /\ sp.rp = 0 /\ sp.rem >= 0 /\ sp.rem <= MintDust
 LG_Step == LG_Supply /\ LG_FailFree /\ LG_StorKeeps /\ LG_GaugeHold
 =============================================================================
